@@ -82,9 +82,16 @@ func c10IndexCase(t *rapid.T, st *kvh.Stats) {
 	if kvh.Pct(t, 6, "manykeys") {
 		nk = 150 + kvh.U(t, 250, "nmany") // deep shards: B-tree nodes split beyond 65 items
 	}
+	// structured keys: a common prefix of 7, 8 or 12 bytes in front of the short keys, so that keys agree in their
+	// first machine word and differ behind it (ordered containers that compare by a leading word first)
+	prefixMode := kvh.U(t, 100, "prefixmode")
+	prefixes := [][]byte{[]byte("user:00"), []byte("0123456"), []byte("01234567"), []byte("0123456789ab"), {0xff, 0xff, 0xff, 0xff, 0xff, 0xff, 0xff, 0xff}}
 	seen := map[string]bool{}
 	for i := 0; i < nk; i++ {
 		k := c10KeyGen.Draw(t, "key")
+		if prefixMode < 12 || (prefixMode < 28 && kvh.Pct(t, 60, "prefixed")) {
+			k = append(append([]byte(nil), prefixes[(prefixMode+kvh.U(t, 2, "pfx"))%len(prefixes)]...), k...)
+		}
 		if !seen[string(k)] {
 			seen[string(k)] = true
 			c.Keys = append(c.Keys, k)
